@@ -1,5 +1,5 @@
 """Registry of all translators: Gen/<name>.v  <-  function returning Coq text."""
-from translate import ops, gatecode, wrapper, groupsum, guards, parse, models
+from translate import ops, gatecode, wrapper, groupsum, guards, parse, models, dispatch
 
 ALL = {
     "Ops": ops.gen_ops,
@@ -12,4 +12,5 @@ ALL = {
     "Guards": guards.gen_guards,
     "Parse": parse.gen_parse,
     "Models": models.gen_models,
+    "Dispatch": dispatch.gen_dispatch,
 }
